@@ -10,6 +10,51 @@ NOTE = ("Trusted base: Python semantics as modelled by sa/cfg.py (statement CFG 
         "structural necessary conditions, not the behaviour; see DESIGN.md section 3 for 'decides / does not decide'.")
 
 CHECKS = {
+    "C02": dict(
+        text="Static: only the writer/reader LAYOUT agreement of the pack index formats and the trailer is decided: ordered "
+             "writer sections (format/width/byte order) vs reader table offsets folded to linear forms, the 2**31 "
+             "large-offset threshold/mask/scale on both sides (a branch no test reaches: it needs offsets >= 2 GiB), trailer "
+             "slices, and that Pack.data never keeps data that failed its check. Round-trip equality, delta resolution and "
+             "varint arithmetic are NOT decided.",
+        technique="writer/reader table extraction with symbolic (linear) offset folding; typestate on the data cache",
+        ref="3 C02"),
+    "C03": dict(
+        text="Static: safety half of both delta decoders and constant agreement of both encoders: bound test dominates every "
+             "byte read, post-conditions dominate the return (Python CFG, Rust token stream), no allocation sized by a "
+             "declared value unless bounded by supplied data (taint over the Rust function), no unwrap/unbounded shift/i32 "
+             "midpoint on input-derived data, running output length tested before each append. apply(create(b,t),b)==t is "
+             "NOT decided.",
+        technique="dominance of bound tests; taint source->sink over an own Rust lexer/item parser; constant agreement",
+        ref="3 C03"),
+    "C04": dict(
+        text="Static: containment structure of every ingestion path: integrity event before visibility, abort pairing of every "
+             "add_pack() user on all exception edges, completeness of the rollback in _complete_pack, no store mutation while "
+             "the incoming pack is still being consumed, an output bound at every inflate site with sibling agreement, cycle "
+             "guard on the ref-delta chain walk, checksums verified on read. Does not decide that every corrupt byte is "
+             "noticed nor promptness.",
+        technique="must-precede, release-on-exit typestate, never-before, sibling cross-check on statement CFG",
+        ref="3 C04"),
+    "C05": dict(
+        text="Static, NARROW: only two structural necessary conditions of the second sentence are decided - wire-supplied "
+             "wants are dominated by a membership test against the advertised set, and a thin pack is completed before it "
+             "is installed. Whether the transferred object set is the complete and minimal closure is a relation over "
+             "histories and is NOT decided by this family.",
+        technique="sanitizer dominance (membership test) and must-precede on statement CFG",
+        ref="3 C05"),
+    "C11": dict(
+        text="Static: index entry layout agreement (struct formats, read size == calcsize, padding, extended flags) between "
+             "reader and writer, boundedness of every operand packed into the 16-bit flags and the 32-bit stat fields the "
+             "statement names, checksum verified on read and written on all paths, sort order and extension preservation. "
+             "Covers field widths for all values (names of 0xFFF+ bytes, 64-bit sizes) that no fixture exercises. Does not "
+             "decide v4 prefix compression arithmetic.",
+        technique="struct-format table agreement; abstract boundedness of bit-field operands; must-pass-through",
+        ref="3 C11"),
+    "C15": dict(
+        text="Static: substitution table (every import-time substitution pairs a Python def with a registered Rust "
+             "#[pyfunction]), binding of every in-repo call site under both signatures, panic/allocation rules over all three "
+             "crates, shared constants. Result equality over all inputs is a two-program relation and is NOT decided.",
+        technique="Python/Rust sibling cross-check: signature binding, constant tables, Rust token-level lint",
+        ref="3 C15"),
     "C01": dict(
         text="Static: dirty-flag discipline (every store to an attribute that _serialize reads - computed by def-use from the "
              "serializer - is paired on all paths with an invalidation of the cached id, fresh receivers exempt by typestate), "
